@@ -71,6 +71,7 @@ type FieldDef struct {
 	Type   *T
 	Args   []*ArgDef
 	Method bool // reflection strategy: served by a Go method (the only FS calls that can fail / be logged)
+	Default string // input fields: SDL text of the default ("" = none)
 }
 
 type TypeDef struct {
@@ -199,7 +200,11 @@ func (s *Schema) SDL() string {
 					}
 					b.WriteString(")")
 				}
-				b.WriteString(": " + f.Type.String() + "\n")
+				b.WriteString(": " + f.Type.String())
+				if f.Default != "" {
+					b.WriteString(" = " + f.Default)
+				}
+				b.WriteString("\n")
 			}
 			b.WriteString("}\n")
 		case KUnion:
@@ -254,6 +259,8 @@ func Universe(o UniverseOpts) *Schema {
 			f("title", N("String")), f("dual", N("String")),
 			m("tri", N("String"), &ArgDef{Name: "a", Type: N("String")}, &ArgDef{Name: "b", Type: N("String")}, &ArgDef{Name: "c", Type: N("String")}),
 			m("rev", N("String"), &ArgDef{Name: "x", Type: N("String")}, &ArgDef{Name: "y", Type: N("String")}),
+			m("pick", N("String"), &ArgDef{Name: "i", Type: N("Int")}, &ArgDef{Name: "e", Type: N("Color")}, &ArgDef{Name: "in", Type: N("Filter")},
+				&ArgDef{Name: "ids", Type: L(NN(N("ID")))}, &ArgDef{Name: "ss", Type: L(N("String"))}),
 			m("mi", N("Int")), m("mkid", N("A")), m("mkids", L(N("A"))), m("mnamed", N("Named")),
 		}
 	}
@@ -294,10 +301,12 @@ func Universe(o UniverseOpts) *Schema {
 		{Kind: KObject, Name: "Mutation", Fields: []*FieldDef{
 			m("set", N("String"), &ArgDef{Name: "s", Type: NN(N("String"))}), f("a", N("A")), f("i", N("Int")),
 		}},
-		{Kind: KInterface, Name: "Named", Fields: []*FieldDef{f("name", N("String")), f("i", N("Int")), f("kid", N("A"))}},
+		{Kind: KInterface, Name: "Named", Fields: []*FieldDef{f("name", N("String")), f("i", N("Int")), f("kid", N("A")), m("echo", N("String"), echoArgs()...)}},
 		obj("A"), obj("B"), obj("C"),
 		{Kind: KUnion, Name: "AB", Members: members},
 		{Kind: KEnum, Name: "Color", Values: []string{"RED", "GREEN", "BLUE"}},
+		{Kind: KInput, Name: "Filter", Fields: []*FieldDef{{Name: "min", Type: NN(N("Int"))}, {Name: "tag", Type: N("String"), Default: "\"dflt\""},
+			{Name: "colors", Type: L(NN(N("Color")))}, {Name: "sub", Type: N("Filter")}}},
 	}}
 	return s
 }
